@@ -41,7 +41,55 @@ fn qqt(qm: &Mat) -> Mat {
 
 pub fn gen_spd(t: &mut Tape, tier: Tier) -> (Mat, &'static str) {
     let n = t.range(1, 8);
-    match t.below(6) {
+    match t.below(8) {
+        7 => {
+            // strongly coupled diagonal blocks (sizes 1..3) joined only through entries scaled by eps = 1e-6 .. 1e-30
+            let g: Mat = (0..n).map(|_| (0..n).map(|_| t.uniform(-1.0, 1.0)).collect()).collect();
+            let mut a = qqt(&g);
+            for i in 0..n {
+                a[i][i] += n as f64;
+            }
+            let mut block = vec![0usize; n];
+            let mut b = 0;
+            let mut i = 0;
+            while i < n {
+                let sz = t.range(1, 3);
+                for k in i..(i + sz).min(n) {
+                    block[k] = b;
+                }
+                i += sz;
+                b += 1;
+            }
+            let eps = 10f64.powf(-t.uniform(6.0, 30.0));
+            for r in 0..n {
+                for c in 0..n {
+                    if block[r] != block[c] {
+                        a[r][c] *= eps;
+                    }
+                }
+            }
+            symmetrise(&mut a);
+            (a, "weakly-joined-blocks")
+        }
+        6 => {
+            // weakly coupled rows: some rows couple to all earlier ones only through tiny entries (1e-6 .. 1e-12 of the
+            // diagonal scale) while later rows couple at order one - a well conditioned matrix with a wide dynamic range
+            let g: Mat = (0..n).map(|_| (0..n).map(|_| t.uniform(-1.0, 1.0)).collect()).collect();
+            let mut a = qqt(&g);
+            for i in 0..n {
+                a[i][i] += n as f64;
+            }
+            let nweak = t.range(1, n.max(2) - 1).min(n.saturating_sub(1)).max(1);
+            for _ in 0..nweak {
+                let k = t.range(1, n.max(2) - 1).min(n - 1);
+                let eps = 10f64.powf(-t.uniform(6.0, 12.0));
+                for j in 0..k {
+                    a[k][j] *= eps;
+                    a[j][k] = a[k][j];
+                }
+            }
+            (a, "weakly-coupled-rows")
+        }
         0 => {
             let g: Mat = (0..n).map(|_| (0..n).map(|_| t.uniform(-1.0, 1.0)).collect()).collect();
             let mut a = qqt(&g);
@@ -100,7 +148,8 @@ pub fn gen_spd(t: &mut Tape, tier: Tier) -> (Mat, &'static str) {
                 let kin = gen::gen_kin(t, &g, 4);
                 let ne = g.nedges();
                 let nl = kin.sig[0].len();
-                let x: Vec<f64> = (0..ne).map(|_| 10f64.powf(-t.uniform(0.0, 6.0))).collect();
+                let spread = *t.pick(&[6.0, 6.0, 12.0]);
+                let x: Vec<f64> = (0..ne).map(|_| 10f64.powf(-t.uniform(0.0, spread))).collect();
                 let mut a = vec![vec![0.0; nl]; nl];
                 for i in 0..nl {
                     for j in 0..nl {
@@ -117,8 +166,22 @@ pub fn gen_spd(t: &mut Tape, tier: Tier) -> (Mat, &'static str) {
 }
 
 pub fn gen_case(t: &mut Tape, tier: Tier) -> Option<Case> {
-    let (a, class) = gen_spd(t, tier);
-    Some(Case { a, class: class.into() })
+    let (mut a, class) = gen_spd(t, tier);
+    let mut class = class.to_string();
+    if t.chance(0.15) {
+        // exact power-of-two rescaling: the routine must be scale covariant as long as nothing leaves f64's range
+        let k = t.range(0, 600) as i32 - 300;
+        let n = a.len() as i32;
+        if (k * n).abs() <= 900 {
+            for row in a.iter_mut() {
+                for v in row.iter_mut() {
+                    *v *= 2f64.powi(k);
+                }
+            }
+            class.push_str("*2^k");
+        }
+    }
+    Some(Case { a, class })
 }
 
 pub fn exact_info(a: &Mat) -> Option<(QMat, num::BigRational, QMat, f64)> {
@@ -156,7 +219,14 @@ pub fn check(c: &Case, ctx: &mut Ctx) -> Result<(), Failure> {
         ctx.label("excluded:cond>1e10");
         return Ok(());
     }
-    // entries spanning more than the f64 range would be outside any sensible reading of the property
+    // magnitude guard (oracle side): determinant, its square root and every entry of A and A^-1 within [1e-280, 1e280]
+    {
+        let mags = [qf(&detq.abs()), lin::fro(&aq), lin::fro(&invq)];
+        if mags.iter().any(|m| !(*m > 1e-280 && *m < 1e280)) || a.iter().flatten().any(|x| *x != 0.0 && x.abs() < 1e-280) {
+            ctx.label("excluded:magnitudes-outside-1e+-280");
+            return Ok(());
+        }
+    }
     let dec = match sut::decompose(a, None) {
         Ok(d) => d,
         Err(SutErr::Panic(m)) => fail!("decompose-panic", "decompose_for_tropical panicked: {m} on {a:?}"),
